@@ -371,7 +371,8 @@ def run_twin(it, unit, tier, log):
     it.samples = []
     it.signatures = set()
     try:
-        viol = it.explore(make_entry(it, fn), stop_at_first=True, deadline=time.time() + 300)
+        # stop at the first path that reaches the end of the harness; paths that end earlier in a (known) violation are skipped
+        viol = it.explore(make_entry(it, fn), stop_at_first=True, stop_msg='TWIN', deadline=time.time() + 300)
     except Inconclusive as e:
         return False, 'twin inconclusive: %s' % e
     return any(v.kind == 'check' and v.msg == 'TWIN' for v in viol), None
